@@ -10,12 +10,13 @@ LEVEL_TEXT = ('Partition: the invariant "no endpoint is both idle and active, no
               '__Get/__Put/_AsyncProcessRequestImpl/its release closure (verified once more with the aperture invariant in their pre- and postconditions) and by the base-class join/leave/open handlers with self typed as the aperture balancer. '
               'Bounds: a contraction removes at most one member and only when more than min_size members are active (so never below min_size); load-driven growth adds at most one member and only below max_size. '
               'Direction: _AdjustAperture grows exactly when the smoothed load per active member is >= max_load, an idle member exists and the size is below max_size; it shrinks only when that load is <= min_load (and the growth condition is false). '
+              'ApertureBalancerSink.__init__ (through HeapBalancerSink.__init__ and LoadBalancerSink.__init__) is verified to establish the invariant: both halves empty, only the sentinel node. '
               'Load tracking: every dispatch to a member adds exactly one to the outstanding counter and every release (first invocation of the release closure, whether or not the member is still active) takes exactly one off. '
               'The three hook overrides satisfy the hook contract under which C03/C04 are proved (same clause list), so those results hold for the aperture balancer too.')
 LEVEL_NOTE = ('NOT covered: the convergence sentence ("the per-member load settles inside the band or the size is pinned") -- a limit statement over traffic histories that no contract expresses; the value of the moving average (Ema.Update is an unconstrained real); '
-              '_Jitter/_ScheduleNextJitter (timer-driven expand-then-contract: built from the two verified operations, not itself under contract); that __init__ establishes the invariant; the pending-endpoint guard beyond "pending and not forced => no contraction". '
+              '_Jitter/_ScheduleNextJitter (timer-driven expand-then-contract: built from the two verified operations, not itself under contract); the pending-endpoint guard beyond "pending and not forced => no contraction". '
               'Trusted: pyvc encoding (reals for floats), z3/cvc5, random.choice as an arbitrary element, AsyncResult.ContinueWith registers a callback that runs later.')
-ASSUMPTIONS = ['the base-class body of a hook runs only for receivers whose class does not override it (entry assumption of the base hooks in the aperture aspect)', 'endpoints are truthy objects (the contraction scan tests "if not least_loaded_endpoint")', 'the constructed balancer satisfies the invariant (empty heap, empty idle set)',
+ASSUMPTIONS = ['the base-class body of a hook runs only for receivers whose class does not override it (entry assumption of the base hooks in the aperture aspect)', 'endpoints are truthy objects (the contraction scan tests "if not least_loaded_endpoint")', 'at construction no heap node exists yet and nobody is on a down list (the node universe of the invariant is per balancer)',
                'notifications are delivered serially; no dispatch during the initial load']
-TRUSTED = []
+TRUSTED = ['ApertureBalancerSink._ScheduleNextJitter']
 BOUNDED = []
